@@ -1354,4 +1354,182 @@ theorem byteSize_lineOf_ge (wd : Char → Nat) (hwd : ∀ c, 1 ≤ wd c) :
       simp only [lineOf, fieldText, byteSize_append, List.length_cons]
       omega
 
+/-! ## Part 7: a written table -/
+
+/-- what the proof needs of the records of a written table: `w :: ws` the measured widths -/
+structure Written (wd : Char → Nat) (w : Nat) (ws : List Nat) (rows : List (List Field)) : Prop where
+  len : ∀ r ∈ rows, r.length = ws.length + 1
+  fit : ∀ r ∈ rows, AllFit wd (w :: ws) r
+  cells : ∀ r ∈ rows, CellsOK r
+  flush : ∀ r ∈ rows, Flush wd ws r.tail
+
+theorem mkSpaces_ne (lo : Int) (es qs : List Int) (h : Geo lo es qs) : mkSpaces es qs ≠ [] := by
+  cases es with
+  | nil => cases qs <;> simp [Geo] at h
+  | cons e es =>
+    cases es with
+    | nil => simp [mkSpaces]
+    | cons e2 es =>
+      cases qs with
+      | nil => simp [Geo] at h
+      | cons q qs => simp [mkSpaces]
+
+theorem row_spaces (wd : Char → Nat) (hwd : ∀ c, 1 ≤ wd c) (hw : wd ' ' = 1) (w : Nat) (ws : List Nat)
+    (r : List Field) (hlen : r.length = ws.length + 1) (hfit : AllFit wd (w :: ws) r) (hok : CellsOK r)
+    (hfl : Flush wd ws r.tail) :
+    spacesOfLine wd (lineOf wd true (w :: ws) r)
+      = mkSpaces (esFrom wd 0 true (w :: ws) r) (tailSeps (1 + (w : Int)) ws) ∧
+    Geo 1 (esFrom wd 0 true (w :: ws) r) (tailSeps (1 + (w : Int)) ws) := by
+  cases r with
+  | nil => simp at hlen
+  | cons f fs =>
+    have hlen' : fs.length = ws.length := by simpa using hlen
+    simp only [List.tail_cons] at hfl
+    have hes : esFrom wd 0 true (w :: ws) (f :: fs)
+        = ((leadPad wd f w + byteSize wd f.contents : Nat) : Int) :: tailEnds wd (1 + (w : Int)) ws fs := by
+      simp only [esFrom, sepLen, if_true, Nat.zero_add, Nat.add_zero]
+      rw [esFrom_flush wd ws fs w hfl]
+      have : ((w : Nat) : Int) + 1 = 1 + (w : Int) := by omega
+      rw [this]
+    rw [hes]
+    refine ⟨spaces_lineOf wd hwd hw w ws f fs hlen' hfit hfl hok, ?_⟩
+    have hfit2 := hfit
+    simp only [AllFit] at hfit2
+    obtain ⟨_, hsz, hfit'⟩ := hfit2
+    have hpos := byteSize_pos wd hwd f.contents (hok f (by simp)).2
+    have hlp := leadPad_le wd f w
+    exact geo_tail wd ws fs (1 + (w : Int)) _ 1 hlen' hfit' (fun x hx => hok x (by simp [hx])) hwd (by omega) (by omega)
+
+theorem tailSeps_length (p : Int) (ws : List Nat) : (tailSeps p ws).length = ws.length := by
+  induction ws generalizing p with
+  | nil => rfl
+  | cons w ws ih => simp [tailSeps, ih]
+
+theorem byteSize_le_append (wd : Char → Nat) (a b : List Char) : byteSize wd a ≤ byteSize wd (a ++ b) := by
+  rw [byteSize_append]; omega
+
+/-- **what `Delimit` finds in a written table**: the column-wise maxima of the value ends -/
+theorem delimit_written (wd : Char → Nat) (hwd : ∀ c, 1 ≤ wd c) (hw : wd ' ' = 1) (nh : Bool) (w : Nat) (ws : List Nat)
+    (lb : LB) (hlb : lb ≠ .cr) (e : Option LB) (he : e ≠ some .cr) (r : List Field) (more : List (List Field))
+    (H : Written wd w ws (r :: more)) :
+    delimit wd nh (lineOf wd true (w :: ws) r ++ (moreText wd lb (w :: ws) more ++ endingChars e))
+      = (colMaxes (ws.length + 1) ((r :: more).map (esFrom wd 0 true (w :: ws)))).map Int.toNat := by
+  have hshape : ∀ x ∈ r :: more, ∃ f fs, x = f :: fs := by
+    intro x hx
+    have := H.len x hx
+    cases x with
+    | nil => simp at this
+    | cons f fs => exact ⟨f, fs, rfl⟩
+  have hlineok : ∀ x ∈ r :: more, LineOK (lineOf wd true (w :: ws) x) := by
+    intro x hx
+    obtain ⟨f, fs, rfl⟩ := hshape x hx
+    exact lineOK_lineOf wd w ws f fs (H.cells _ hx)
+  -- the lines
+  have htm : lb.chars = ['\n'] ∨ lb.chars = ['\r', '\n'] := by
+    cases lb with
+    | lf => exact Or.inl rfl
+    | crlf => exact Or.inr rfl
+    | cr => exact absurd rfl hlb
+  have hen : endingChars e = [] ∨ endingChars e = ['\n'] ∨ endingChars e = ['\r', '\n'] := by
+    cases e with
+    | none => exact Or.inl rfl
+    | some l =>
+      cases l with
+      | lf => exact Or.inr (Or.inl rfl)
+      | crlf => exact Or.inr (Or.inr rfl)
+      | cr => exact absurd rfl he
+  have hlines : readLines [] (lineOf wd true (w :: ws) r ++ (moreText wd lb (w :: ws) more ++ endingChars e))
+      = (r :: more).map (lineOf wd true (w :: ws)) := by
+    rw [moreText_moreLines, readLines_text lb.chars htm (endingChars e) hen _ _ (hlineok r (by simp))
+      (by
+        intro x hx
+        obtain ⟨y, hy, rfl⟩ := List.mem_map.mp hx
+        exact hlineok y (by simp [hy]))]
+    simp
+  have hrow : ∀ x ∈ r :: more,
+      spacesOfLine wd (lineOf wd true (w :: ws) x) = mkSpaces (esFrom wd 0 true (w :: ws) x) (tailSeps (1 + (w : Int)) ws) ∧
+      Geo 1 (esFrom wd 0 true (w :: ws) x) (tailSeps (1 + (w : Int)) ws) :=
+    fun x hx => row_spaces wd hwd hw w ws x (H.len x hx) (H.fit x hx) (H.cells x hx) (H.flush x hx)
+  have htable : tableSpaces wd (lineOf wd true (w :: ws) r ++ (moreText wd lb (w :: ws) more ++ endingChars e))
+      = ((r :: more).map fun x => (([] : List Space), esFrom wd 0 true (w :: ws) x)).map
+          fun l => l.1 ++ mkSpaces l.2 (tailSeps (1 + (w : Int)) ws) := by
+    unfold tableSpaces
+    rw [hlines, List.map_map, List.map_map]
+    have : ∀ x ∈ r :: more, (spacesOfLine wd ∘ lineOf wd true (w :: ws)) x
+        = ((fun l : List Space × List Int => l.1 ++ mkSpaces l.2 (tailSeps (1 + (w : Int)) ws)) ∘
+            fun x => (([] : List Space), esFrom wd 0 true (w :: ws) x)) x := by
+      intro x hx
+      simp [(hrow x hx).1]
+    rw [List.map_congr_left this]
+    apply List.filter_eq_self.mpr
+    intro s hs
+    obtain ⟨x, hx, rfl⟩ := List.mem_map.mp hs
+    have := mkSpaces_ne 1 _ _ (hrow x hx).2
+    simp only [Function.comp, List.nil_append]
+    cases hm : mkSpaces (esFrom wd 0 true (w :: ws) x) (tailSeps (1 + (w : Int)) ws) with
+    | nil => exact absurd hm this
+    | cons a as => rfl
+  unfold delimit
+  rw [htable]
+  have hfuel : (tailSeps (1 + (w : Int)) ws).length + 1
+      ≤ byteSize wd (lineOf wd true (w :: ws) r ++ (moreText wd lb (w :: ws) more ++ endingChars e)) + 2 := by
+    obtain ⟨f, fs, rfl⟩ := hshape r (by simp)
+    have h1 := byteSize_lineOf_ge wd hwd (w :: ws) (f :: fs) true (by simpa using H.len (f :: fs) (by simp))
+      (fun g hg => (H.cells (f :: fs) (by simp) g hg).2)
+    have h2 := byteSize_le_append wd (lineOf wd true (w :: ws) (f :: fs)) (moreText wd lb (w :: ws) more ++ endingChars e)
+    rw [tailSeps_length]
+    simp only [List.length_cons] at h1
+    omega
+  rw [delimitLoop_geo nh (tailSeps (1 + (w : Int)) ws) _ 1 1 [] _ (by simp)
+    (by
+      intro l hl
+      obtain ⟨x, hx, rfl⟩ := List.mem_map.mp hl
+      exact ⟨by intro s hs; simp at hs, (hrow x hx).2⟩)
+    (by simp [lastPos]) (by omega) (Int.le_refl _) (Int.le_refl _) hfuel]
+  simp [tailSeps_length, List.map_map, Function.comp_def]
+
+/-- **a written table is read back record by record with the positions `Delimit` finds** -/
+theorem readAll_written (wd : Char → Nat) (hwd : ∀ c, 1 ≤ wd c) (hw : wd ' ' = 1) (nh : Bool) (w : Nat) (ws : List Nat)
+    (lb : LB) (hlb : lb ≠ .cr) (e : Option LB) (he : e ≠ some .cr) (r : List Field) (more : List (List Field))
+    (H : Written wd w ws (r :: more)) :
+    ∃ σ, readAll wd (delimit wd nh (lineOf wd true (w :: ws) r ++ (moreText wd lb (w :: ws) more ++ endingChars e)))
+          (lineOf wd true (w :: ws) r ++ (moreText wd lb (w :: ws) more ++ endingChars e)) = .ok σ ∧
+      σ.recs = ((r :: more).map rowOf).reverse := by
+  rw [delimit_written wd hwd hw nh w ws lb hlb e he r more H]
+  have hcol := colOK_colMaxes wd (w :: ws) (r :: more) 0 true (fun x hx => ⟨by simpa using H.len x hx, H.fit x hx⟩)
+  simp only [List.length_cons] at hcol
+  generalize (colMaxes (ws.length + 1) ((r :: more).map (esFrom wd 0 true (w :: ws)))).map Int.toNat = P at hcol ⊢
+  have hcells : ∀ x ∈ r :: more, ∀ f ∈ x, NoBreak f.contents ∧ f.contents ≠ [] := by
+    intro x hx f hf
+    obtain ⟨h1, h2⟩ := H.cells x hx f hf
+    exact ⟨fun c hc => ⟨(noSpace_not_break c (h1 c hc)).2, (noSpace_not_break c (h1 c hc)).1⟩, h2⟩
+  have hvalid := validFrom_colOK wd hwd (w :: ws) r P 0 0 true (hcol r (by simp)) (Nat.le_refl 0)
+    (fun f hf => (hcells r (by simp) f hf).2)
+  obtain ⟨σ, h1, h2⟩ := run_rows_auto wd hwd hw P w ws lb hlb e he more r { cols := P }
+    (fun x hx => ⟨H.fit x hx, hcol x hx, hcells x hx⟩)
+  refine ⟨σ, ?_, by simpa using h2⟩
+  unfold readAll
+  rw [if_neg (by rw [hvalid]; simp)]
+  exact h1
+
+theorem colMaxes_length (k : Nat) (ess : List (List Int)) : (colMaxes k ess).length = k := by
+  induction k generalizing ess with
+  | zero => rfl
+  | succ k ih => simp [colMaxes, ih]
+
+theorem measure_length (wd : Char → Nat) (n : Nat) (recs : List (List Field)) : (measure wd n recs).length = n := by
+  simp [measure]
+
+theorem flush_of_left (wd : Char → Nat) : ∀ (ws : List Nat) (fs : List Field), (∀ f ∈ fs, f.align = .left) → Flush wd ws fs := by
+  intro ws
+  induction ws with
+  | nil => intro fs _; cases fs <;> simp [Flush]
+  | cons w ws ih =>
+    intro fs h
+    cases fs with
+    | nil => simp [Flush]
+    | cons f fs =>
+      simp only [Flush]
+      exact ⟨by simp [leadPad, h f (by simp)], ih fs (fun g hg => h g (by simp [hg]))⟩
+
 end Csvq.Fixed
